@@ -54,6 +54,7 @@ type Exec struct {
 
 	md *multiState
 
+	mergerStall    int // >0: the next MergerProgress callback is slow by that many scheduling points
 	noRoundChecks  bool
 	storeSurelyAll bool
 	storeMaybeAll  bool
@@ -533,6 +534,13 @@ func (e *Exec) onEvent(ev moss.Event) {
 		e.onPersistRound()
 	case moss.EventKindMergerProgress:
 		e.events.mergerRounds++
+		if n := e.mergerStall; n > 0 && e.viol == nil {
+			// a slow application callback: the merger is held up at the end of
+			// this cycle while everybody else runs
+			e.mergerStall = 0
+			e.probe("merger-held-up")
+			simrt.Stall(int64(n))
+		}
 	}
 	simrt.Yield(siteCallback)
 }
@@ -597,6 +605,10 @@ func (e *Exec) step(op Op) {
 		e.doBigKV(op)
 	case "getErr":
 		e.doGetErr(op)
+	case "stallMerger":
+		if e.collOpen && !e.opts.ReadOnly {
+			e.mergerStall = op.N
+		}
 	case "bgRefuse":
 		if e.opts.MergeOp && e.collOpen {
 			mergeRefuseBg = 1 + op.N
